@@ -52,7 +52,7 @@ def run(tape, scenario):
     bus = env.bus
     ec = EtherCat("sim0")
     two = scenario == "two-groups"
-    specs = wl.gen_specs(tape, "c30")
+    specs = wl.gen_specs(tape, "c30", allow_aero=True)
     sims, terms = wl.build(env, ec, specs)
     links = wl.gen_links(tape, specs, "c30")
     if not links:
@@ -122,7 +122,7 @@ def run(tape, scenario):
             if d.cmd == LRD:
                 return sum(1 for k in self.used if specs[k]["use_fmmu"] and specs[k]["in_sz"])
             if d.cmd == LWR:
-                return sum(1 for k in self.rw if specs[k]["use_fmmu"] and specs[k]["out_sz"])
+                return sum(1 for k in self.rw if wl.out_via_fmmu(specs[k]) and specs[k]["out_sz"])
             if d.cmd in (FPRD, FPWR):
                 return 1
             return None
@@ -222,7 +222,12 @@ def run(tape, scenario):
             if snap is not None:
                 k, areas = snap
                 for t in sorted(areas):
-                    if sims[t].outputs() != areas[t]:
+                    got_out, want_out = sims[t].outputs(), areas[t]
+                    if specs[t].get("aero"):
+                        # an Aerotech-style terminal gets its declared packet size only
+                        n_decl = specs[t]["decl_out"]
+                        got_out, want_out = got_out[:n_decl], want_out[:n_decl]
+                    if got_out != want_out:
                         viol("outputs-not-in-next-frame",
                              f"group {g.gi} cycle {k}: terminal {t} received "
                              f"{sims[t].outputs().hex()} with the following frame, devices "
